@@ -26,6 +26,15 @@ def cases(tier, rng):
             for body in (AND(tg, h), AND(C("n", Y), tg, h), OR(AND(tg, h), FAIL), AND(tg, op("time", h)), AND(g, op("time", h)), NOT(AND(tg, h))):
                 for rules in ([rule(cplx("a", X), body), fact("a", i(9))], [fact("a", i(9)), rule(cplx("a", X), body)]):
                     out.append((progs.hist(list(progs.LIB) + rules, [progs.build(0, [atom("a"), var(0, "$Q")])] + [progs.ask(0)] * 8), "time-shape"))
+    # a disjunction (with printing alternatives) as a NON-last goal of the last clause, every combination failing:
+    # once exhausted, a further request must not run the later alternatives again
+    P = progs.PRINT(atom("%s;"), X)
+    for alts in ([C("n", X), AND(U(X, i(2)), P), AND(U(X, i(3)), P)], [AND(U(X, i(1)), P), AND(U(X, i(2)), P)], [C("e", X), AND(C("n", X), P)],
+                 [P, AND(U(X, i(2)), P), FAIL]):
+        for h in (FAIL, C("k", X), bip("greater_than", X, i(5)), AND(C("e", Y), FAIL)):
+            for rules in ([fact("a", i(9)), rule(cplx("a", X), AND(OR(*alts), h))], [rule(cplx("a", X), AND(OR(*alts), h))],
+                          [rule(cplx("a", X), AND(C("n", Y), OR(*alts), h))]):
+                out.append((progs.hist(list(progs.LIB) + rules, [progs.build(0, [atom("a"), var(0, "$Q")])] + [progs.ask(0)] * 6), "or-exhausted"))
     n = 500 if tier == "quick" else 10000
     out += histgen.random_cases(rng, n, dict(), nasks_choices=(8, 12, 16), solve_mix=False)
     return out
@@ -33,7 +42,7 @@ def cases(tier, rng):
 RULE = ("(a) bodies of 1-3 goals over a 10-goal alphabet (multi-answer calls, =, >, fail, !, print, not(..)) in a($X) :- BODY. a(9). "
         "asked 9 times (all of them in the thorough tier, 35% in the quick tier); the same under a disjunction with not and "
         "cut through solve (8 times) and next_solution; time(G) (first answer only) for 4 goals G followed by 4 filters in 6 "
-        "positions, as first and as last clause, asked 8 times; (b) random programs with cut, not, print, disjunctions and built-ins, "
+        "positions, as first and as last clause, asked 8 times; printing disjunctions as non-last goals whose every combination fails; (b) random programs with cut, not, print, disjunctions and built-ins, "
         "asked 8-16 times. Checked on the implementation itself: after the first request that reports no answer every further "
         "request reports none and writes nothing; the reference search additionally supplies the number of answers. "
         "Non-trivial = at least three requests were made after the first 'no more answers'.")
